@@ -27,11 +27,12 @@ NoDeps(n)  == [i \in 1..n |-> {}]
 NoSched(n) == [i \in 1..n |-> 0]
 Mk(f, sch, d, nv, unk) == [files |-> f, sched |-> sch, deps |-> d, never |-> nv, unknown |-> unk]
 
+\* Families are sequences of sets (see ScenarioSets in LoaderResolve).
 \* --- C08: every list shape x every postponement schedule -------------------
 C08Of(n, F, maxp) == {Mk(f, sch, NoDeps(n), {}, {}) : f \in F, sch \in [1..n -> 0..maxp]}
-C08Full(u)  == UNION {C08Of(n, Files1(n), 2) : n \in 0..4} \cup UNION {C08Of(n, Files2(n), 2) : n \in 1..3}
-C08Mc(u)    == UNION {C08Of(n, Files1(n), 2) : n \in 0..3} \cup UNION {C08Of(n, Files2(n), 2) : n \in 1..2}
-C08Small(u) == UNION {C08Of(n, Files1(n) \cup Files2(n), 2) : n \in 0..3}
+C08Full(u)  == [i \in 1..5 |-> C08Of(i - 1, Files1(i - 1), 2)] \o [n \in 1..3 |-> C08Of(n, Files2(n), 2)]
+C08Mc(u)    == [i \in 1..4 |-> C08Of(i - 1, Files1(i - 1), 2)] \o [n \in 1..2 |-> C08Of(n, Files2(n), 2)]
+C08Small(u) == [i \in 1..4 |-> C08Of(i - 1, Files1(i - 1) \cup Files2(i - 1), 2)]
 
 \* --- C09: every dependency structure (no self loops: that is `never`) -------
 DepsOf(n) == {d \in [1..n -> SUBSET (1..n)] : \A i \in 1..n : i \notin d[i]}
@@ -41,15 +42,16 @@ LayoutsAll(n) == {<<OneList(1, n)>>, <<Singles(1, n)>>, <<Mixed(1, n)>>}
 LayoutsFew(n)  == {<<Mixed(1, n)>>, <<Singles(1, n \div 2), OneList(n \div 2 + 1, n)>>}
 LayoutsMore(n) == LayoutsFew(n) \cup {<<OneList(1, 1), Singles(2, n)>>, <<Mixed(1, n - 1), Singles(n, n)>>}
 C09Of(n, L, NV) == {Mk(f, NoSched(n), d, nv, {}) : f \in L, d \in DepsOf(n), nv \in NV}
-C09Small(u) == UNION {C09Of(n, LayoutsAll(n), SUBSET (1..n)) : n \in 0..3}
-C09Mc(u)    == UNION {C09Of(n, LayoutsFew(n), SUBSET (1..n)) : n \in 0..3}
-C09Four(u)  == C09Of(4, LayoutsFew(4), {{}})
-C09FourNever(u) == C09Of(4, LayoutsMore(4), SUBSET (1..4))
+C09Small(u) == [i \in 1..4 |-> C09Of(i - 1, LayoutsAll(i - 1), SUBSET (1..(i - 1)))]
+C09Mc(u)    == [i \in 1..4 |-> C09Of(i - 1, LayoutsFew(i - 1), SUBSET (1..(i - 1)))]
+C09Four(u)  == <<C09Of(4, LayoutsFew(4), {{}})>>
+C09FourNever(u) == <<C09Of(4, LayoutsMore(4), SUBSET (1..4))>>
 \* schedules, dependencies, never-resolving and unknown references together
-MixedSmall(u) == UNION {{Mk(f, sch, d, nv, unk) : f \in {<<Mixed(1, n)>>, <<Singles(1, 1), Mixed(2, n)>>},
-                        sch \in [1..n -> 0..1], d \in {e \in DepsOf(n) : \A i \in 1..n : Cardinality(e[i]) <= 1},
-                        nv \in {{}} \cup {{r} : r \in 1..n},
-                        unk \in {{}} \cup {{r} : r \in 1..n}} : n \in 1..3}
+MixedOf(n) == {Mk(f, sch, d, nv, unk) : f \in {<<Mixed(1, n)>>, <<Singles(1, 1), Mixed(2, n)>>},
+                 sch \in [1..n -> 0..1], d \in {e \in DepsOf(n) : \A i \in 1..n : Cardinality(e[i]) <= 1},
+                 nv \in {{}} \cup {{r} : r \in 1..n},
+                 unk \in {{}} \cup {{r} : r \in 1..n}}
+MixedSmall(u) == [n \in 1..3 |-> MixedOf(n)]
 
 \* --- selection of a family and of a shard through the environment ----------
 NatOf(str) == CHOOSE i \in 0..255 : ToString(i) = str
@@ -69,15 +71,16 @@ Family(name) ==
     [] name = "c09four"  -> C09Four(0)
     [] name = "c09never" -> C09FourNever(0)
     [] name = "mixed"    -> MixedSmall(0)
-    [] name = "c09quick" -> C09Small(0) \cup C09Four(0) \cup MixedSmall(0)
-    [] name = "c09thorough" -> C09Small(0) \cup C09FourNever(0) \cup MixedSmall(0)
-EnvScenarios == LET nsh == NatOf(IOEnv.VT_NSHARDS)
-                    sh  == NatOf(IOEnv.VT_SHARD)
-                IN {s \in Family(IOEnv.VT_FAMILY) : ScCode(s) % nsh = sh}
+    [] name = "c09quick" -> C09Small(0) \o C09Four(0) \o MixedSmall(0)
+    [] name = "c09thorough" -> C09Small(0) \o C09FourNever(0) \o MixedSmall(0)
+EnvScenarioSets == LET nsh == NatOf(IOEnv.VT_NSHARDS)
+                       sh  == NatOf(IOEnv.VT_SHARD)
+                       fam == Family(IOEnv.VT_FAMILY)
+                   IN [i \in DOMAIN fam |-> {s \in fam[i] : ScCode(s) % nsh = sh}]
 EnvDev   == IF IOEnv.VT_DEV = "" THEN {} ELSE {IOEnv.VT_DEV}
 EnvOrder == IOEnv.VT_ORDER
 
-ASSUME \A s \in EnvScenarios : WellFormed(s)
+ASSUME \A i \in DOMAIN EnvScenarioSets : \A s \in EnvScenarioSets[i] : WellFormed(s)
 
 \* --- S->I: the scenario with the outcome the module prescribes ---------------
 EmitFinal ==
